@@ -733,10 +733,13 @@ pub fn collect(ctx: &Ctx, which: Which) -> (Tally, Meta) {
     if which == Which::C06 {
         short_write_sinks(&mut tally);
     }
+    if which == Which::C04 {
+        adts_sweep(&mut tally);
+    }
     let desc = runs.iter().map(|(a, d)| format!("{} symbols to depth {d}", a.len())).collect::<Vec<_>>().join(" + ");
     let (rule, assumptions) = match which {
         Which::C04 => (
-            format!("every call history over the relative-symbol alphabet ({desc}; all lengths 1..depth) x {} configurations (4 codecs x {{AAC, Opus, no audio}}), executed on the real muxer with the executable contract model stepped in lock-step: each call must succeed iff the model's set of violated preconditions is empty, and an error must map into that set. A case is distinct by (result vector, output bytes).", cfgs.len()),
+            format!("every call history over the relative-symbol alphabet ({desc}; all lengths 1..depth) x {} configurations (4 codecs x {{AAC, Opus, no audio}}), executed on the real muxer with the executable contract model stepped in lock-step: each call must succeed iff the model's set of violated preconditions is empty, and an error must map into that set; plus every ADTS frame length 0..8191 x protection x buffer length {{fl-1, fl, fl+1, fl+9}} through write_audio against the reference ADTS parser. A case is distinct by (result vector, output bytes).", cfgs.len()),
             vec!["the contract model (oracle/src/model.rs) is a transcription of docs/contract.md and the statement of C04; header-only ADTS frames are accepted either way (statement lists both readings)".to_string()],
         ),
         Which::C05 => (
@@ -749,6 +752,46 @@ pub fn collect(ctx: &Ctx, which: Which) -> (Tally, Meta) {
         ),
     };
     (tally, Meta { level: "model_checking", rule, bound: desc, exhaustive: true, assumptions, extra: json!({"configurations": cfgs.len()}) })
+}
+
+/// "structurally valid ADTS": write_audio's decision for every 13-bit frame length x protection
+/// flag x buffer length {fl-1, fl, fl+1, fl+9} must equal the reference parser's (a frame is
+/// accepted iff the header is well-formed, the declared length covers the header and the buffer
+/// holds the declared length; a header-only frame may go either way, as in the alphabet).
+fn adts_sweep(t: &mut Tally) {
+    use oracle::refmodel::{adts_parse, Adts};
+    let cfg = Cfg::basic(VCodec::H264, Some(ACodec::AacLc), true);
+    let key = Bytes::new(frames::video_frame(VCodec::H264, true, true, 1, 4).0);
+    let mut k = 0u64;
+    for protected in [false, true] {
+        for fl in 0..8192usize {
+            for bl in [fl.wrapping_sub(1), fl, fl + 1, fl + 9] {
+                if bl > 9000 {
+                    continue;
+                }
+                let mut f = AdtsHdr { protection_absent: !protected, frame_length: fl as u16, ..Default::default() }.bytes();
+                while f.len() < bl {
+                    f.push(0x21 + (f.len() % 0xd0) as u8);
+                }
+                f.truncate(bl);
+                k += 1;
+                t.evaluations += 1;
+                let ops = vec![Op::WV { pts: T(0.0), data: key.clone(), key: true }, Op::WA { pts: T(0.0), data: Bytes::new(f.clone()) }];
+                let ex = crate::run::run(&cfg, &ops);
+                let accepted = ex.results.get(1).map(|r| r.is_ok()).unwrap_or(false);
+                let (want, either) = match adts_parse(&f) {
+                    Adts::Valid { header_len, frame_len } => (true, frame_len == header_len),
+                    _ => (false, false),
+                };
+                t.outcome((accepted as u64) << 20 | (fl as u64) << 2 | protected as u64);
+                if accepted != want && !either {
+                    let sig = if accepted { "C04/write_audio/adts-sweep/accepted-invalid" } else { "C04/write_audio/adts-sweep/rejected-valid" };
+                    t.violation(sig, (9_100_000, k), || format!("ADTS frame with declared length {fl}, protection {protected}, buffer of {bl} bytes: write_audio {} it, the reference parser says {:?}", if accepted { "accepted" } else { "rejected" }, adts_parse(&f)), || json!({"engine": "contract", "cfg": cfg, "ops": ops, "brief": format!("adts fl={fl} bl={bl}")}));
+                }
+            }
+        }
+    }
+    t.count("adts_sweep_frames", k);
 }
 
 /// C06 on sinks that legally accept only part of each buffer: "a successful finish writes the
